@@ -113,7 +113,7 @@ K6(o, verdict) ==
 (* K7: ArrayUnique is list(set(...)): order by hash, TypeError on unhashable items, 1 == true *)
 K7(o, verdict) ==
     /\ Calls(o, "States.ArrayUnique") # {}
-    /\ \/ verdict \in {"WrongValue", "HashSeedDependent"}
+    /\ \/ verdict \in {"WrongValue", "HashSeedDependent", "UnexpectedFailure"}      \* (a shorter result: index out of range)
        \/ verdict \in {"ArbitraryException", "WrongFailureClass"} /\ Raised(o, {"TypeError"})
 
 (* K8: StringSplit pastes the separators into a regular-expression character class *)
